@@ -86,7 +86,7 @@ def q_undo_log(s, m, first, last):
     got = [dict((k, v) for k, v in d.items() if k not in ('time', 'size')) for d in got]
     for d in got:
         d['id'] = base64.decodebytes(d['id'] + b'\n')
-    want = m.undo_log(first, last)
+    want = [dict((k, v) for k, v in d.items() if k not in ('time', 'size')) for d in m.undo_log(first, last)]
     check(got == want, 'undoLog(first, last) differs', first, last, got, want)
 
 
